@@ -426,7 +426,7 @@ def build_payloads(ctx, replay):
         return {"replay": [case]}
     rng = ctx.rng
     metrics = ["cosine", "euclidean", "manhattan"] + ([] if ctx.quick else ["chebyshev"])
-    reps = 2 if ctx.quick else 12
+    reps = 2 if ctx.quick else 30
     payloads = {}
     sid = 0
     for metric in metrics:
@@ -444,7 +444,7 @@ def build_payloads(ctx, replay):
         items.append(sc_sinkhorn(rng, rng.choice(["cosine", "euclidean"]), sid, "wasserstein")); sid += 1
         items.append(sc_approx(rng, sid)); sid += 1
     payloads["sinkhorn+approx"] = items
-    payloads["pipeline"] = [gen_pipeline(rng) for _ in range(60 if ctx.quick else 400)]
+    payloads["pipeline"] = [gen_pipeline(rng) for _ in range(60 if ctx.quick else 800)]
     return payloads
 
 
